@@ -1824,3 +1824,162 @@ Theorem handlers_under_mutex_refuted :
 Proof.
   eexists. split; [vm_compute; reflexivity|]. repeat split; vm_compute; congruence.
 Qed.
+
+(* ---- the entry points over the REAL router state ---------------------------------------------------------
+   The wrappers of treenode.go / overlay.go / context.go are folds over Router.Send; here the fold runs
+   over the router transition system itself: every SendTo of a multi-destination entry point is a
+   [send_call] in the state the previous ones left behind. *)
+
+Lemma thread_step_peer s t o s' th :
+  threads s t = Some th -> thread_step s t o = Some s' ->
+  (exists th', threads s' t = Some th' /\ tpeer th' = tpeer th) /\
+  (forall p, p <> tpeer th -> table s' p = table s p).
+Proof.
+  intros Hth H. unfold thread_step in H. rewrite Hth in H.
+  assert (G : forall s0 th0, tpeer th0 = tpeer th ->
+              exists th', threads (set_thread s0 t th0) t = Some th' /\ tpeer th' = tpeer th).
+  { intros s0 th0 E. exists th0. cbn. now rewrite upd_same. }
+  destruct (tpc th) eqn:Hpc; try discriminate.
+  - destruct (table s (tpeer th)); inv_some; split; [apply G; reflexivity|auto| apply G; reflexivity|auto].
+  - destruct (listening s (tpeer th)); [unfold new_conn in H|]; inv_some; (split; [apply G; reflexivity|auto]).
+  - destruct (ident_send s c o); inv_some; (split; [apply G; reflexivity|]); auto.
+    intros p _. now destruct (close_refused_frame s c) as (_ & -> & _).
+  - destruct (closed s); inv_some; (split; [apply G; reflexivity|]).
+    + intros p _. now destruct (close_refused_frame s c) as (_ & -> & _).
+    + intros p Hp. cbn. now rewrite upd_other.
+  - destruct (closed s); inv_some; [split; [apply G; reflexivity|]|].
+    + intros p _. now destruct (close_refused_frame s c) as (_ & -> & _).
+    + destruct (conns s c) as [x|]; [|discriminate]. destruct (loop x); try discriminate.
+      destruct (t0 =? t); inv_some. split; [apply G; reflexivity|auto].
+  - destruct (tmsgs th) as [|m rest]; inv_some; [split; [apply G; reflexivity|auto]|].
+    destruct (conn_send s c m o) as [s1 ok] eqn:Hs.
+    destruct (conn_send_frame _ _ _ _ _ _ Hs) as (_&_&_&A4&_).
+    destruct ok; inv_some; (split; [apply G; reflexivity|]); cbn; intros; now rewrite A4.
+  - destruct (tmsgs th) as [|m rest]; inv_some; [split; [apply G; reflexivity|auto]|].
+    destruct (conn_send s c' m o) as [s1 ok] eqn:Hs.
+    destruct (conn_send_frame _ _ _ _ _ _ Hs) as (_&_&_&A4&_).
+    destruct ok; inv_some; (split; [apply G; reflexivity|]); cbn; intros; now rewrite A4.
+Qed.
+
+Lemma run_thread_frame fuel : forall s t o th,
+  Inv s -> threads s t = Some th ->
+  Inv (run_thread fuel s t o) /\ listening (run_thread fuel s t o) = listening s /\
+  closed (run_thread fuel s t o) = closed s /\
+  (forall p, p <> tpeer th -> table (run_thread fuel s t o) p = table s p).
+Proof.
+  induction fuel as [|f IH]; intros s t o th I Hth; cbn; [auto|].
+  destruct (thread_step s t o) as [s1|] eqn:E; [|auto].
+  destruct (thread_step_peer _ _ _ _ _ Hth E) as ((th1 & Hth1 & Hp1) & Ht).
+  destruct (thread_step_frame _ _ _ _ I E) as (F1 & F2 & _).
+  destruct (IH s1 t o th1 (step_thread _ _ _ _ I E) Hth1) as (A & B & C & D).
+  repeat split; auto; try congruence.
+  intros p Hp. rewrite D by congruence. now apply Ht.
+Qed.
+
+Lemma send_call_frame s q msgs o :
+  Inv s ->
+  Inv (fst (send_call s q msgs o)) /\ listening (fst (send_call s q msgs o)) = listening s /\
+  closed (fst (send_call s q msgs o)) = closed s /\
+  (forall p, p <> q -> table (fst (send_call s q msgs o)) p = table s p).
+Proof.
+  intros I. unfold send_call. cbv beta iota zeta delta [step].
+  set (th := mkThread q msgs (match msgs with [] => PDone RErr | _ => PLookup end)).
+  set (s1 := set_threads s (upd (threads s) (nextt s) (Some th)) (S (nextt s))).
+  assert (I1 : Inv s1) by (eapply (step_spawn s q msgs); eauto).
+  assert (Hth1 : threads s1 (nextt s) = Some th) by (subst s1; cbn; now rewrite upd_same).
+  destruct (run_thread_frame (send_fuel msgs) s1 (nextt s) o th I1 Hth1) as (A & B & C & D).
+  cbn [fst]. repeat split; auto.
+Qed.
+
+Lemma send_fails_inv s p msgs o :
+  Inv s -> listening s p = false -> table s p = [] ->
+  snd (send_call s p msgs o) = Some RErr.
+Proof.
+  intros I Hl Ht. unfold send_call. cbv beta iota zeta delta [step].
+  set (th := mkThread p msgs (match msgs with [] => PDone RErr | _ => PLookup end)).
+  set (s1 := set_threads s (upd (threads s) (nextt s) (Some th)) (S (nextt s))).
+  assert (I1 : Inv s1) by (eapply (step_spawn s p msgs); eauto).
+  assert (Hth1 : threads s1 (nextt s) = Some th) by (subst s1; cbn; now rewrite upd_same).
+  assert (K1 : K (nextt s) p o (delivered s) s1).
+  { constructor; auto.
+    - cbn. rewrite Ht. intros c x [].
+    - exists th. split; auto. split; auto. unfold pcK, th. cbn. destruct msgs; cbn; auto. discriminate. }
+  pose proof (K_run _ _ _ _ (send_fuel msgs) _ K1) as K2.
+  destruct (send_returns (send_fuel msgs) s1 (nextt s) th o I1 Hth1) as (r & Hr & _).
+  { unfold mu, send_fuel, th. cbn. destruct msgs; cbn; lia. }
+  destruct K2 as [_ _ _ _ _ (th2 & Hth2 & _ & Hpc)]. cbn [snd].
+  unfold result in *. rewrite Hth2 in *. unfold pcK in Hpc.
+  destruct (tpc th2); try discriminate. now rewrite Hpc.
+Qed.
+
+(* one SendTo of an instance = one Router.Send of the same messages *)
+Definition rsend (msgs : list nat) (o : bool) (s : state) (q : nat) : state * res :=
+  (fst (send_call s q msgs o), opt_res (snd (send_call s q msgs o))).
+
+Section DeadPeer.
+Variables (msgs : list nat) (o : bool) (p : nat).
+
+Definition dead (s : state) : Prop := Inv s /\ listening s p = false /\ table s p = [].
+
+Lemma dead_fails s : dead s -> snd (rsend msgs o s p) = RErr.
+Proof. intros (I & L & T). unfold rsend. cbn. now rewrite (send_fails_inv s p msgs o I L T). Qed.
+
+Lemma dead_kept s q : dead s -> q <> p -> dead (fst (rsend msgs o s q)).
+Proof.
+  intros (I & L & T) Hq. destruct (send_call_frame s q msgs o I) as (A & B & _ & D).
+  unfold rsend. cbn [fst]. repeat split; auto; [now rewrite B|]. rewrite D; auto.
+Qed.
+
+(* SendToChildren: a dead child makes the call fail (at that child or earlier) *)
+Theorem send_to_children_dead_child dests : forall s,
+  dead s -> In p dests -> snd (send_to_children state (rsend msgs o) s dests) = RErr.
+Proof.
+  induction dests as [|d r IH]; intros s D Hin; [destruct Hin|]. cbn [send_to_children].
+  destruct (Nat.eq_dec d p) as [->|Hd].
+  - pose proof (dead_fails s D) as F. destruct (rsend msgs o s p) as [s' x]. cbn in F. now subst.
+  - destruct Hin as [E|Hin]; [congruence|].
+    pose proof (dead_kept s d D Hd) as D'. destruct (rsend msgs o s d) as [s' x]. cbn in D'.
+    destruct x; auto.
+Qed.
+
+(* Multicast / Broadcast / SendToChildrenInParallel: a dead destination is among the reported ones *)
+Theorem multicast_reports_dead_peer dests : forall s,
+  dead s -> In p dests -> In p (snd (multicast state (rsend msgs o) s dests)).
+Proof.
+  induction dests as [|d r IH]; intros s D Hin; [destruct Hin|]. cbn [multicast].
+  destruct (Nat.eq_dec d p) as [->|Hd].
+  - pose proof (dead_fails s D) as F. destruct (rsend msgs o s p) as [s' x]. cbn in F. subst x.
+    destruct (multicast state (rsend msgs o) s' r). cbn. now left.
+  - destruct Hin as [E|Hin]; [congruence|].
+    pose proof (dead_kept s d D Hd) as D'. destruct (rsend msgs o s d) as [s' x]. cbn in D'.
+    specialize (IH s' D' Hin). destruct (multicast state (rsend msgs o) s' r) as [s'' errs]. cbn in *.
+    destruct x; auto. now right.
+Qed.
+
+Theorem broadcast_reports_dead_peer self nodes s :
+  dead s -> In p nodes -> p <> self -> In p (snd (broadcast state (rsend msgs o) s self nodes)).
+Proof.
+  intros D Hin Hne. unfold broadcast. apply multicast_reports_dead_peer; auto.
+  apply filter_In. split; auto. apply Nat.eqb_neq in Hne. now rewrite Hne.
+Qed.
+
+(* the single-destination entry points: SendToParent, SendTo, SendToTreeNode, the repaired SendRaw *)
+Theorem single_entry_points_dead_peer s :
+  dead s ->
+  snd (send_to_parent state (rsend msgs o) s (Some p)) = RErr /\
+  tn_send_to false false (snd (rsend msgs o s p)) = RErr /\
+  send_to_tree_node (snd (rsend msgs o s p)) = RErr /\
+  send_raw true (snd (rsend msgs o s p)) = RErr /\
+  send_raw false (snd (rsend msgs o s p)) = ROk.
+Proof.
+  intros D. pose proof (dead_fails s D) as F. cbn [send_to_parent]. rewrite F. repeat split.
+Qed.
+
+End DeadPeer.
+
+(* a reachable state in which the peer is dead in the sense above *)
+Example dead_example : dead 0 (st_of (run (init true false 0) [ACrash 0])).
+Proof.
+  split; [|split; vm_compute; reflexivity].
+  apply (reachable_inv true false 0 [ACrash 0]). vm_compute. reflexivity.
+Qed.
